@@ -1103,3 +1103,36 @@ Theorem C04_tr_undo_inverts_edit_bounded : forall (ext : nat -> list val -> mem 
 Proof. exact tr_undo_inverts_edit_bounded. Qed.
 Print Assumptions C04_tr_undo_inverts_edit_bounded.
 End C04_translated_chain.
+
+(* ---- the hypotheses of C04_tr_undo_inverts_edit_bounded hold on the concrete run: the bound B = 2, K = 3 in the memory the translated lbuf_opt returns
+   (computed by vm_compute; every row is -1, the new record has no saved rows, the capacity is 3), and the three size conditions of the model. *)
+Section C04_translated_chain_example.
+Import Lia CLite CLiteProps CLiteExt GenCFuncs TrLbufBase TrUndoBase TrUndo TrUndoOpt TrUndoEdit.
+Import TrCmp4 TrCmp4Loop TrCmp4Edit TrCmp4Marks TrCmp4Bound TrCmp4Chain.
+Local Open Scope Z_scope.
+
+Ltac rows32 := let k := fresh "k" in let Hk := fresh "Hk" in intros k Hk;
+  do 32 (destruct k as [|k]; [eexists; split; [reflexivity|split; [split; lia|lia]]|]); lia.
+
+Example C04_tr_chain_bound_holds :
+  (forall (m1 : mem) (blk1 : block) (bh1 : nat) (hblk1 : block),
+     callx cx_ext cprog 100 (S (S (S (S 3)))) F_lbuf_opt [VPtr cx_G 0; VPtr (cx_G + 6) 0; VInt 1; VInt 1] cx_mem = Ok (VUndef, m1) ->
+     urep Tc m1 cx_G blk1 bh1 hblk1 (lbuf_opt cx_lb (Some [120; 10; 121]%N) 1 1) -> bnd 2 3 m1 blk1 hblk1 (lbuf_opt cx_lb (Some [120; 10; 121]%N) 1 1)) /\
+  (let lb1 := lbuf_edit cx_lb (Some [120; 10; 121]%N) 1 2 in let lb2 := undo1 lb1 in
+   size_ok 100 2 (Some [120; 10; 121]%N) /\
+   (let lo := nth (hist_u lb1 - 1) (hist lb1) dflt in size_ok 100 (2 + Z.of_nat (linecount (Some [120; 10; 121]%N))) (del lo)) /\
+   (let lo1 := nth (hist_u lb1 - 1) (hist lb1) dflt in let lo := nth (hist_u lb2) (hist lb2) dflt in
+    size_ok 100 (2 + Z.of_nat (linecount (Some [120; 10; 121]%N)) + Z.of_nat (linecount (del lo1))) (ins lo))).
+Proof.
+  split.
+  - intros m1 blk1 bh1 hblk1 C R1. vm_compute in C. injection C as <-.
+    pose proof (u_blk _ _ _ _ _ _ _ R1) as Hb. vm_compute in Hb. injection Hb as <-.
+    pose proof (u_hist _ _ _ _ _ _ _ R1) as Hh. vm_compute in Hh. injection Hh as <-.
+    pose proof (u_hblk _ _ _ _ _ _ _ R1) as Hk. vm_compute in Hk. injection Hk as <-. clear R1.
+    split; [|split; [cbn; lia|split]].
+    + rows32.
+    + intros i Hi. cbn in Hi. assert (i = 0)%nat by lia. subst i. intros bm mb j z H7. vm_compute in H7. discriminate.
+    + intros cap Hc. unfold L_ln_sz in Hc. cbn [nth_error] in Hc. injection Hc as Hc. lia.
+  - cbv zeta. split; [|split]; (split; [vm_compute; discriminate|split; [vm_compute; discriminate|]]); intros t Ht; vm_compute in Ht; injection Ht as <-; cbn; lia.
+Qed.
+End C04_translated_chain_example.
